@@ -1,6 +1,163 @@
 import DriverOps.Common
-/- driver ops with prefix "vw." (owned by the Views model) -/
+/- driver ops with prefix "vw." (owned by the Views model, C18)
+
+  vw.json   {"sections":[[name, {"text":s} | {"items":[[session, kind, text],…]}],…], "curves":[[session, [[kind, text],…]],…]}
+            header kinds: int float nonfinite npint npfloat npnonfinite text none bool npbool   (text of nonfinite: nan|inf|-inf,
+            of bool: True|False); sample kinds: f nan inf -inf text int
+            → {"metadata":[[name, {"text":s} | {"obj":[[key, jval],…]}],…], "data":[[key,[jval,…]],…]}
+            jval: null | true | false | {"num":text} | "string" | {"bare":"NaN"|"Infinity"|"-Infinity"}
+  vw.csv    {"mnemonics": true|false|null|[…], "units": true|false|null|[…], "units_loc": "line"|"()"|"[]"|null|other,
+             "origs":[…], "cunits":[…], "rows":[[…],…]} → [[…],…]
+  vw.unit   {"units":[…], "arg": str|null (optional), "old": bool (optional)} → key | null
+  vw.depth  {"index_unit": str|null} → {"m": expr|null, "ft": expr|null, "contains":[M?,F?,.1IN?]}
+            expr: "idx" | ["mul", expr, "0.3048"|"120"] | ["div", expr, "0.3048"|"120"]
+  vw.upper  {"s": str} → {"upper": str, "lower": str}
+-/
 open Lean Lasio
 
+namespace VwOps
+
+def numText (s : Str) : Except String NumText :=
+  if h : isJsonNumber s = true then pure ⟨s, h⟩
+  else throw s!"not a JSON number literal: {String.ofList s}"
+
+def nonFin (s : Str) : Except String NonFin :=
+  match String.ofList s with
+  | "nan" => pure .nan
+  | "inf" => pure .posInf
+  | "-inf" => pure .negInf
+  | t => throw s!"bad non-finite text {t}"
+
+def pyBool (s : Str) : Except String Bool :=
+  match String.ofList s with
+  | "True" => pure true
+  | "False" => pure false
+  | t => throw s!"bad bool text {t}"
+
+def hval (kind : String) (t : Str) : Except String HVal :=
+  match kind with
+  | "int" => do pure (.pyInt (← numText t))
+  | "float" => do pure (.pyFloat (← numText t))
+  | "nonfinite" => do pure (.pyFloatNonFinite (← nonFin t))
+  | "npint" => do pure (.npInt (← numText t))
+  | "npfloat" => do pure (.npFloat (← numText t))
+  | "npnonfinite" => do pure (.npFloatNonFinite (← nonFin t))
+  | "text" => pure (.text t)
+  | "none" => pure .none
+  | "bool" => do pure (.bool (← pyBool t))
+  | "npbool" => do pure (.npBool (← pyBool t))
+  | k => throw s!"bad header value kind {k}"
+
+def sample (kind : String) (t : Str) : Except String Sample :=
+  match kind with
+  | "f" => do pure (.f (← numText t))
+  | "nan" => pure .nan
+  | "inf" => pure (.inf false)
+  | "-inf" => pure (.inf true)
+  | "text" => pure (.text t)
+  | "int" => do pure (.int (← numText t))
+  | k => throw s!"bad sample kind {k}"
+
+def getItem (j : Json) : Except String (Str × HVal) := do
+  let a ← arr j
+  if a.size != 3 then throw "item: [session, kind, text] expected"
+  pure (← getS a[0]!, ← hval (← a[1]!.getStr?) (← getS a[2]!))
+
+def getSample (j : Json) : Except String Sample := do
+  let a ← arr j
+  if a.size != 2 then throw "sample: [kind, text] expected"
+  sample (← a[0]!.getStr?) (← getS a[1]!)
+
+def getSection (j : Json) : Except String (Str × SecView) := do
+  let a ← arr j
+  if a.size != 2 then throw "section: [name, body] expected"
+  let name ← getS a[0]!
+  match a[1]!.getObjVal? "text" with
+  | .ok t => pure (name, .text (← getS t))
+  | .error _ => pure (name, .items (← getList getItem (← fld a[1]! "items")))
+
+def getCurve (j : Json) : Except String (Str × List Sample) := do
+  let a ← arr j
+  if a.size != 2 then throw "curve: [session, samples] expected"
+  pure (← getS a[0]!, ← getList getSample a[1]!)
+
+def jval : JVal → Json
+  | .null => Json.null
+  | .bool b => Json.bool b
+  | .num t => Json.mkObj [("num", jstr t.text)]
+  | .str s => jstr s
+  | .bare .nan => Json.mkObj [("bare", Json.str "NaN")]
+  | .bare .posInf => Json.mkObj [("bare", Json.str "Infinity")]
+  | .bare .negInf => Json.mkObj [("bare", Json.str "-Infinity")]
+
+def jsec : JSec → Json
+  | .text s => Json.mkObj [("text", jstr s)]
+  | .obj kvs => Json.mkObj [("obj", jlist (fun kv => Json.arr #[jstr kv.1, jval kv.2]) kvs)]
+
+def getRowOpt (j : Json) : Except String RowOpt :=
+  match j with
+  | .bool true => pure .dflt
+  | .bool false => pure .off
+  | .null => pure .off
+  | _ => do pure (.list (← getList getS j))
+
+def getUnitsLoc (j : Json) : UnitsLoc :=
+  match j with
+  | .str "line" => .line
+  | .str "()" => .paren
+  | .str "[]" => .bracket
+  | _ => .other
+
+def getOptS (j : Json) : Except String (Option Str) :=
+  match j with
+  | .null => pure none
+  | _ => do pure (some (← getS j))
+
+def jconst : DConst → Json
+  | .ft => Json.str "0.3048"
+  | .tenthIn => Json.str "120"
+
+def jexpr : DepthExpr → Json
+  | .idx => Json.str "idx"
+  | .mul e c => Json.arr #[Json.str "mul", jexpr e, jconst c]
+  | .div e c => Json.arr #[Json.str "div", jexpr e, jconst c]
+
+def jopt {α} (f : α → Json) : Option α → Json
+  | none => Json.null
+  | some a => f a
+
+end VwOps
+
+open VwOps in
 def handleViews (op : String) (j : Json) : Except String Json :=
-  throw s!"op {op} not implemented"
+  match op with
+  | "vw.json" => do
+    let secs ← getList getSection (← fld j "sections")
+    let curves ← getList getCurve (← fld j "curves")
+    let t := encodeLas { sections := secs, curves := curves }
+    pure (Json.mkObj [
+      ("metadata", jlist (fun ns => Json.arr #[jstr ns.1, jsec ns.2]) t.metadata),
+      ("data", jlist (fun c => Json.arr #[jstr c.1, jlist jval c.2]) t.data)])
+  | "vw.csv" => do
+    let o : CsvOpts := { mnemonics := ← getRowOpt (← fld j "mnemonics"), units := ← getRowOpt (← fld j "units"),
+                         unitsLoc := getUnitsLoc ((j.getObjVal? "units_loc").toOption.getD Json.null) }
+    let origs ← getList getS (← fld j "origs")
+    let cunits ← getList getS (← fld j "cunits")
+    let rows ← getList (getList getS) (← fld j "rows")
+    pure (jlist (jlist jstr) (csvRows o origs cunits rows))
+  | "vw.unit" => do
+    let units ← getList getS (← fld j "units")
+    let old := match j.getObjVal? "old" with | .ok (.bool true) => true | _ => false
+    if old then pure (jopt jstr (detectIndexUnitOld units))
+    else match j.getObjVal? "arg" with
+      | .ok a => do pure (jopt jstr (resolveIndexUnit (← getOptS a) units))
+      | .error _ => pure (jopt jstr (detectIndexUnit units))
+  | "vw.depth" => do
+    let iu ← getOptS (← fld j "index_unit")
+    pure (Json.mkObj [("m", jopt jexpr (depthM iu)), ("ft", jopt jexpr (depthFt iu)),
+      ("contains", Json.arr #[Json.bool (indexUnitContains iu "M".toList), Json.bool (indexUnitContains iu "F".toList),
+                               Json.bool (indexUnitContains iu ".1IN".toList)])])
+  | "vw.upper" => do
+    let s ← fldS j "s"
+    pure (Json.mkObj [("upper", jstr (upper s)), ("lower", jstr (lower s))])
+  | _ => throw s!"op {op} not implemented"
